@@ -112,6 +112,16 @@ add("C17", "TLC exhaustive on NewtonPair.tla (eager and compiled Newton-CG bookk
     "iteration start and the direction of the first trial, progress, agreement of the variants).",
     TRUST + "agreement tolerance rtol 1e-7.")
 
+add("C14", "TLC exhaustive on ControllerCG.tla + replay of controller behaviours into the five real controllers + trace validation of real ConjugateGradient runs (ControllerCGTrace.tla) with ground truth; InversionEnabler solves",
+    "The counter logic of the iteration controllers and the control skeleton of the classic CG (controller asked first, vanishing / NaN gamma, "
+    "non-positive curvature, residual recomputation every nreset-th step) are specified in ControllerCG.tla; TLC checks ConvergedLaw, ErrorLaw, Returns and "
+    "ResetLaw for every environment sequence and five parametrisations. Every controller behaviour TLC emits is replayed into the real Gradient-norm "
+    "(absolute/relative), Grad-inf-norm, relative / absolute / stochastic Delta-energy controllers with synthetic energies realising each hit or miss. "
+    "The real CG runs on generated HPD systems (n<=25/40, condition up to 1e3/1e6, real/complex, with/without preconditioner, reset periods 1-20, "
+    "all six controller types, zero and non-zero start) through a recording controller and operator; traces are validated against the skeleton and carry "
+    "ground truth (true residual vs criterion, value/gradient consistency). InversionEnabler.inverse_times/adjoint_inverse_times must solve the system.",
+    TRUST + "criterion values within 1e-9 of the threshold are left to TLC; residual margin 1e-10*cond*|b|.")
+
 
 def main():
     props = [json.loads(l) for l in open(os.path.join(HERE, "properties.jsonl"))]
